@@ -262,3 +262,24 @@ func zeroGlobals() map[string]bool {
 	}
 	return z
 }
+
+// lockedPackages returns the packages that declare a package-level variable of a sync type (a
+// mutex, a once, a sync.Map, ...): such a package manages some of its state under its own locks.
+func lockedPackages() map[string]bool {
+	l := map[string]bool{}
+	for p, vars := range rt.Globals() {
+		for _, ptr := range vars {
+			t := reflect.TypeOf(ptr)
+			if t.Kind() == reflect.Ptr {
+				t = t.Elem()
+			}
+			if t.Kind() == reflect.Ptr {
+				t = t.Elem()
+			}
+			if pp := t.PkgPath(); pp == "sync" || pp == "sync/atomic" {
+				l[p] = true
+			}
+		}
+	}
+	return l
+}
